@@ -534,7 +534,10 @@ BuildUnary(a, t) ==
     [] a.op = "cycle"   -> BOk(OCycle(t, a.take))
     [] a.op = "shuffle" ->
          LET l == LenO(t) IN
-         IF ~l.ok THEN BErr(l.exc) ELSE GetSlice(ILForm(a.perm, "np"), t)
+         IF ~l.ok THEN BErr(l.exc)
+         \* the harness' scripted rng refuses a permutation of the wrong length
+         ELSE IF Len(a.perm) # l.n THEN BErr("AssertionError")
+         ELSE GetSlice(ILForm(a.perm, "np"), t)
     [] a.op = "sort" ->
          IF a.key = "none" THEN
            LET ks == KeysO(t) IN
